@@ -38,6 +38,30 @@ def run(ops, profile='dev', timeout=120):
     return json.loads(out[k + len('@@RESULT@@'):] if k >= 0 else out)
 
 
+TANTIVY_DIR = '/verif/replay_tantivy'
+TANTIVY_TARGET = os.environ.get('VERIF_REPLAY_TANTIVY_TARGET', '/var/tmp/vpverif-target-replay-tantivy')
+
+
+def run_tantivy(model_bytes, wsconst, text, timeout=120):
+    """native Tantivy token stream of `text` (driver /verif/replay_tantivy, built on demand from /repo's working tree)"""
+    if 'tantivy' not in _built:
+        env = dict(os.environ)
+        env['CARGO_NET_OFFLINE'] = 'true'
+        env['CARGO_TARGET_DIR'] = TANTIVY_TARGET
+        env.pop('RUSTFLAGS', None)
+        p = subprocess.run(['cargo', 'build', '--offline', '--quiet'], cwd=TANTIVY_DIR, env=env, stdout=subprocess.PIPE, stderr=subprocess.PIPE)
+        if p.returncode != 0:
+            raise RuntimeError('tantivy replay driver does not build against the current /repo tree:\n' + p.stderr.decode()[-4000:])
+        _built['tantivy'] = os.path.join(TANTIVY_TARGET, 'debug', 'vp-replay-tantivy')
+    p = subprocess.run([_built['tantivy']], input=json.dumps({'model': list(model_bytes), 'wsconst': wsconst, 'text': text}).encode(),
+                       stdout=subprocess.PIPE, stderr=subprocess.PIPE, timeout=timeout)
+    if p.returncode != 0:
+        return {'crash': p.returncode, 'stderr': p.stderr.decode()[-2000:]}
+    out = p.stdout.decode('utf-8', 'replace')
+    k = out.rfind('@@RESULT@@')
+    return json.loads(out[k + len('@@RESULT@@'):])
+
+
 if __name__ == '__main__':
     import sys
     print(json.dumps(run(json.load(open(sys.argv[1]))['ops']), ensure_ascii=False, indent=1))
